@@ -112,62 +112,34 @@ theorem degMap_ok {m : List (Nat × W)} {o : Outcome (List (Nat × W))} (h : o =
 
 theorem degreeInformation_ok (g : Store) (h : g.wf = true) (k : Nat) (hnames : ∀ x, x < k → x ∈ g.names) :
     ∃ di, degreeInformation g k = .ok di ∧
-      (g.specs.directed = true → TotalOn di.inDeg g.names ∧ TotalOn di.outDeg g.names) ∧
-      (g.specs.directed = false → TotalOn di.deg g.names) := by
+      (g.specs.directed = true → TotalOn di.inDeg g.names ∧ TotalOn di.outDeg g.names ∧
+        di.stotIn.length = k ∧ di.stotOut.length = k) ∧
+      (g.specs.directed = false → TotalOn di.deg g.names ∧ di.stot.length = k) := by
   unfold degreeInformation
   cases hd : g.specs.directed
   · obtain ⟨m, hm, ht⟩ := weightedDegree_total g h
     obtain ⟨m', hm', ht'⟩ := degMap_ok hm ht
     simp only [Bool.false_eq_true, if_false, hm', bind, Outcome.bind]
-    split
-    next x st hst =>
-      exact ⟨_, rfl, by simp, fun _ => ht'⟩
-    next x e hst =>
-      have hx := foldl_ok_of (fun _ => True) _ _ ?_ _ trivial _ hst
-      · obtain ⟨r, hr, -⟩ := hx; cases hr
-      · intro a i hi _
-        obtain ⟨d, hd'⟩ := ht' i (hnames i (List.mem_range.1 hi))
-        exact ⟨a ++ [d], by simp [hd', Outcome.ofOption], trivial⟩
-    next x e hst =>
-      have hx := foldl_ok_of (fun _ => True) _ _ ?_ _ trivial _ hst
-      · obtain ⟨r, hr, -⟩ := hx; cases hr
-      · intro a i hi _
-        obtain ⟨d, hd'⟩ := ht' i (hnames i (List.mem_range.1 hi))
-        exact ⟨a ++ [d], by simp [hd', Outcome.ofOption], trivial⟩
+    rw [foldl_ok_map (g := fun i => (alookup m' i).getD 0) (acc := [])]
+    · exact ⟨_, rfl, by simp, fun _ => ⟨ht', by simp⟩⟩
+    · intro acc i hi
+      obtain ⟨d, hd'⟩ := ht' i (hnames i (List.mem_range.1 hi))
+      simp [hd', Outcome.ofOption]
   · obtain ⟨mi, hmi, hti⟩ := weightedIn_total g h hd
     obtain ⟨mi', hmi', hti'⟩ := degMap_ok hmi hti
     obtain ⟨mo, hmo, hto⟩ := weightedOut_total g h hd
     obtain ⟨mo', hmo', hto'⟩ := degMap_ok hmo hto
     simp only [if_true, hmi', hmo', Outcome.unwrap, bind, Outcome.bind]
-    split
-    next x si hsi =>
-      split
-      next y so hso =>
-        exact ⟨_, rfl, fun _ => ⟨hti', hto'⟩, by simp⟩
-      next y e hst =>
-        have hx := foldl_ok_of (fun _ => True) _ _ ?_ _ trivial _ hst
-        · obtain ⟨r, hr, -⟩ := hx; cases hr
-        · intro a i hi _
-          obtain ⟨d, hd'⟩ := hto' i (hnames i (List.mem_range.1 hi))
-          exact ⟨a ++ [d], by simp [hd', Outcome.ofOption], trivial⟩
-      next y e hst =>
-        have hx := foldl_ok_of (fun _ => True) _ _ ?_ _ trivial _ hst
-        · obtain ⟨r, hr, -⟩ := hx; cases hr
-        · intro a i hi _
-          obtain ⟨d, hd'⟩ := hto' i (hnames i (List.mem_range.1 hi))
-          exact ⟨a ++ [d], by simp [hd', Outcome.ofOption], trivial⟩
-    next x e hst =>
-      have hx := foldl_ok_of (fun _ => True) _ _ ?_ _ trivial _ hst
-      · obtain ⟨r, hr, -⟩ := hx; cases hr
-      · intro a i hi _
-        obtain ⟨d, hd'⟩ := hti' i (hnames i (List.mem_range.1 hi))
-        exact ⟨a ++ [d], by simp [hd', Outcome.ofOption], trivial⟩
-    next x e hst =>
-      have hx := foldl_ok_of (fun _ => True) _ _ ?_ _ trivial _ hst
-      · obtain ⟨r, hr, -⟩ := hx; cases hr
-      · intro a i hi _
-        obtain ⟨d, hd'⟩ := hti' i (hnames i (List.mem_range.1 hi))
-        exact ⟨a ++ [d], by simp [hd', Outcome.ofOption], trivial⟩
+    rw [foldl_ok_map (g := fun i => (alookup mi' i).getD 0) (acc := [])]
+    · simp only
+      rw [foldl_ok_map (g := fun i => (alookup mo' i).getD 0) (acc := [])]
+      · exact ⟨_, rfl, fun _ => ⟨hti', hto', by simp, by simp⟩, by simp⟩
+      · intro acc i hi
+        obtain ⟨d, hd'⟩ := hto' i (hnames i (List.mem_range.1 hi))
+        simp [hd', Outcome.ofOption]
+    · intro acc i hi
+      obtain ⟨d, hd'⟩ := hti' i (hnames i (List.mem_range.1 hi))
+      simp [hd', Outcome.ofOption]
 
 theorem foldl_ok_exists₀ {α β : Type} (F : Outcome α → β → Outcome α) (l : List β)
     (hF : ∀ a x, x ∈ l → ∃ b, F (.ok a) x = .ok b) (a0 : α) : ∃ r, l.foldl F (.ok a0) = .ok r := by
@@ -238,48 +210,104 @@ theorem neighborWeights_ok (g : Store) (h : g.wf = true) (hm : g.specs.multi = f
         simp only [he, hc, Outcome.unwrap, Outcome.ofOption]
         exact ⟨_, rfl, trivial⟩
 
-/-- the degree maps of the bookkeeping are defined on every node -/
-structure DegOK (g : Store) (di : DegInfo) : Prop where
-  dir : g.specs.directed = true → TotalOn di.inDeg g.names ∧ TotalOn di.outDeg g.names
-  undir : g.specs.directed = false → TotalOn di.deg g.names
+/-- the degree maps of the bookkeeping are defined on every node and the `stot*` vectors have one slot per community id -/
+structure DegOK (g : Store) (k : Nat) (di : DegInfo) : Prop where
+  dir : g.specs.directed = true → TotalOn di.inDeg g.names ∧ TotalOn di.outDeg g.names ∧
+    di.stotIn.length = k ∧ di.stotOut.length = k
+  undir : g.specs.directed = false → TotalOn di.deg g.names ∧ di.stot.length = k
+
+theorem idxGuard_ok (site : String) {len i : Nat} (h : i < len) : idxGuard site len i = .ok () := by
+  simp [idxGuard, h]
+
+theorem guardFold_ok {β : Type} (F : Outcome Unit → β → Outcome Unit) (l : List β)
+    (hF : ∀ a ∈ l, F (.ok ()) a = .ok ()) : l.foldl F (.ok ()) = .ok () := by
+  induction l with
+  | nil => rfl
+  | cons a l ih =>
+    rw [List.foldl_cons, hF a (by simp)]
+    exact ih (fun b hb => hF b (by simp [hb]))
+
+theorem length_setR (l : List Rat) (i : Nat) (v : Rat) : (setR l i v).length = l.length := by
+  simp [setR]
 
 theorem visit_exists {lv : Level} {n k : Nat} (hg : GoodLevel lv n k) (hwf : lv.g.wf = true)
-    (hm : lv.g.specs.multi = false) {st : LState} (hs : SInv lv k st) (hdeg : DegOK lv.g st.di)
+    (hm : lv.g.specs.multi = false) {st : LState} (hs : SInv lv k st) (hdeg : DegOK lv.g k st.di)
     (m res : Rat) (u : Nat) (hu : u ∈ lv.g.names) : ∃ st', visit lv m res st u = .ok st' := by
   have huk : u < k := (hg.names_iff u).1 hu
   obtain ⟨cur, hcur⟩ := hs.n2c_total u huk
+  have hck : cur < k := (hs.n2c_lt u cur hcur).2
   have htot : TotalOn st.node2com lv.g.names := fun x hx => hs.n2c_total x ((hg.names_iff x).1 hx)
   obtain ⟨w2c, hw⟩ := neighborWeights_ok lv.g hwf hm u st.node2com htot
+  have hkeys : ∀ a ∈ isort (fun a b : Nat × Rat => decide (a.1 ≤ b.1)) w2c, a.1 < k := by
+    intro a ha
+    rw [C02.mem_isort] at ha
+    obtain ⟨v, hv⟩ := neighborWeights_keys hw a.1 (List.mem_map_of_mem ha)
+    exact (hs.n2c_lt v a.1 hv).2
+  obtain ⟨nd, hnd⟩ : ∃ nd, lv.g.getNode u = some nd := by
+    have := (hasNode_names lv.g hwf u).2 hu
+    unfold Store.hasNode at this
+    cases hgn : lv.g.getNode u with
+    | none => rw [hgn] at this; cases this
+    | some nd => exact ⟨nd, rfl⟩
   unfold visit
   simp only [bind, Outcome.bind, hcur, hw, Outcome.ofOption]
   cases hd : lv.g.specs.directed
-  · obtain ⟨d, hd'⟩ := hdeg.undir hd u hu
-    simp only [hd', Bool.false_eq_true, if_false]
-    split <;> exact ⟨_, rfl⟩
-  · obtain ⟨hi, ho⟩ := hdeg.dir hd
+  · obtain ⟨ht, hl⟩ := hdeg.undir hd
+    obtain ⟨d, hd'⟩ := ht u hu
+    simp only [hd', Bool.false_eq_true, if_false, idxGuard_ok _ (hl ▸ hck), length_setR]
+    rw [guardFold_ok _ _ (fun a ha => idxGuard_ok _ (hl ▸ hkeys a ha))]
+    simp only
+    generalize hb : (Louvain.updateBest _ w2c (cur, 0)).fst = best
+    have hbk : best < k := by
+      rcases (by rw [← hb]; exact updateBest_fst _ w2c (cur, 0) : best = cur ∨ best ∈ w2c.map (·.1)) with h1 | h1
+      · rw [h1]; exact hck
+      · obtain ⟨v, hv⟩ := neighborWeights_keys hw best h1
+        exact (hs.n2c_lt v best hv).2
+    simp only [idxGuard_ok _ (hl ▸ hbk)]
+    split
+    · simp only [hnd, idxGuard_ok _ (hs.part_len ▸ hck), idxGuard_ok _ (hs.inner_len ▸ hck), List.length_set,
+        idxGuard_ok _ (hs.part_len ▸ hbk), idxGuard_ok _ (hs.inner_len ▸ hbk)]
+      exact ⟨_, rfl⟩
+    · exact ⟨_, rfl⟩
+  · obtain ⟨hi, ho, hli, hlo⟩ := hdeg.dir hd
     obtain ⟨di, hdi⟩ := hi u hu
     obtain ⟨do', hdo⟩ := ho u hu
-    simp only [hdi, hdo, if_true]
-    split <;> exact ⟨_, rfl⟩
+    simp only [hdi, hdo, if_true, idxGuard_ok _ (hli ▸ hck), idxGuard_ok _ (hlo ▸ hck), length_setR]
+    rw [guardFold_ok _ _ (fun a ha => by
+      simp only [idxGuard_ok _ (hli ▸ hkeys a ha), idxGuard_ok _ (hlo ▸ hkeys a ha)])]
+    simp only
+    generalize hb : (Louvain.updateBest _ w2c (cur, 0)).fst = best
+    have hbk : best < k := by
+      rcases (by rw [← hb]; exact updateBest_fst _ w2c (cur, 0) : best = cur ∨ best ∈ w2c.map (·.1)) with h1 | h1
+      · rw [h1]; exact hck
+      · obtain ⟨v, hv⟩ := neighborWeights_keys hw best h1
+        exact (hs.n2c_lt v best hv).2
+    simp only [idxGuard_ok _ (hli ▸ hbk), idxGuard_ok _ (hlo ▸ hbk)]
+    split
+    · simp only [hnd, idxGuard_ok _ (hs.part_len ▸ hck), idxGuard_ok _ (hs.inner_len ▸ hck), List.length_set,
+        idxGuard_ok _ (hs.part_len ▸ hbk), idxGuard_ok _ (hs.inner_len ▸ hbk)]
+      exact ⟨_, rfl⟩
+    · exact ⟨_, rfl⟩
 
-theorem visit_degOK {lv : Level} {m res : Rat} {st st' : LState} {u : Nat}
-    (hv : visit lv m res st u = .ok st') (hdeg : DegOK lv.g st.di) : DegOK lv.g st'.di := by
-  obtain ⟨_, _, _, _, _, _, h1, h2, h3, _⟩ := visit_ok hv
-  exact ⟨fun hd => by rw [h1, h2]; exact hdeg.dir hd, fun hd => by rw [h3]; exact hdeg.undir hd⟩
+theorem visit_degOK {lv : Level} {k : Nat} {m res : Rat} {st st' : LState} {u : Nat}
+    (hv : visit lv m res st u = .ok st') (hdeg : DegOK lv.g k st.di) : DegOK lv.g k st'.di := by
+  obtain ⟨_, _, _, _, _, _, h1, h2, h3, h4, h5, h6, _⟩ := visit_ok hv
+  exact ⟨fun hd => by rw [h1, h2, h4, h5]; exact hdeg.dir hd, fun hd => by rw [h3, h6]; exact hdeg.undir hd⟩
+
 
 theorem pass_exists {lv : Level} {n k : Nat} (hg : GoodLevel lv n k) (hwf : lv.g.wf = true)
     (hm : lv.g.specs.multi = false) (m res : Rat) (order : List Nat) (ho : ∀ u ∈ order, u ∈ lv.g.names)
-    (st : LState) (hs : SInv lv k st) (hdeg : DegOK lv.g st.di) :
+    (st : LState) (hs : SInv lv k st) (hdeg : DegOK lv.g k st.di) :
     ∃ st', order.foldl (fun acc u => do let s ← acc; visit lv m res s u) (.ok st) = .ok st' ∧
-      (SInv lv k st' ∧ DegOK lv.g st'.di) := by
-  refine foldl_ok_exists (fun s => SInv lv k s ∧ DegOK lv.g s.di) _ order ?_ st ⟨hs, hdeg⟩
+      (SInv lv k st' ∧ DegOK lv.g k st'.di) := by
+  refine foldl_ok_exists (fun s => SInv lv k s ∧ DegOK lv.g k s.di) _ order ?_ st ⟨hs, hdeg⟩
   intro a u hu ha
   obtain ⟨b, hb⟩ := visit_exists hg hwf hm ha.1 ha.2 m res u (ho u hu)
   exact ⟨b, by simpa [bind, Outcome.bind] using hb, ha.1.visit hg hb, visit_degOK hb ha.2⟩
 
 theorem sweeps_exists {lv : Level} {n k : Nat} (hg : GoodLevel lv n k) (hwf : lv.g.wf = true)
     (hm : lv.g.specs.multi = false) (m res : Rat) (order : List Nat) (ho : ∀ u ∈ order, u ∈ lv.g.names) (fuel : Nat) :
-    ∀ (st : LState), SInv lv k st → DegOK lv.g st.di → ∃ r, sweeps lv m res order fuel st = .ok r := by
+    ∀ (st : LState), SInv lv k st → DegOK lv.g k st.di → ∃ r, sweeps lv m res order fuel st = .ok r := by
   induction fuel with
   | zero => intro st _ _; exact ⟨none, rfl⟩
   | succ fuel ih =>
